@@ -102,8 +102,7 @@ let handle_x509 op args =
     xres i (notice_reference_from_der (nn mx) i) (fun (((t, org), nums), r) -> ([zs t; hx org; f_nints nums], r))
   | "xunoticeD", [mx; h] -> let i = bytes_of_hex h in
     xres i (user_notice_from_der (nn mx) i) (fun ((nref, txt), r) ->
-      ((match nref with Some ((t, org), nums) -> [zs t; hx org; f_nints nums] | None -> ["POISON"; "POISON"; "POISON"])
-       @ (match txt with Some (t, v) -> [zs t; hx v] | None -> ["POISON"; "POISON"]), r))
+      ((match nref with ((t, org), nums) -> [zs t; f_ptr org; f_nints nums]) @ (match txt with (t, v) -> [zs t; f_ptr v]), r))
   | "xpqiD", [h] -> let i = bytes_of_hex h in xres i (policy_qualifier_info_from_der i) (fun ((id, q), r) -> ([zs id; hx q], r))
   | "xcpidD", [h] -> let i = bytes_of_hex h in xres ~abs:"-1 ." i (cert_policy_id_from_der i) (fun ((id, ns), r) -> ([zs id; f_nodes ns], r))
   | "xpolinfoD", [h] -> let i = bytes_of_hex h in xres i (policy_information_from_der i) (fun (((id, ns), q), r) -> ([zs id; f_nodes ns; f_ptr q], r))
@@ -133,7 +132,7 @@ let handle_x509 op args =
   | "xedirnD", [ix; h] -> let i = bytes_of_hex h in xres i (explicit_directory_name_from_der (nn ix) i) (fun ((t, v), r) -> ([zs t; hx v], r))
   | "xediD", [h] -> let i = bytes_of_hex h in
     xres i (edi_party_name_from_der i) (fun ((a, (t2, v2)), r) ->
-      ((match a with Some (t, v) -> [zs t; hx v] | None -> ["POISON"; "POISON"]) @ [zs t2; hx v2], r))
+      ((match a with (t, v) -> [zs t; f_ptr v]) @ [zs t2; hx v2], r))
   | "xatvD", [h] -> let i = bytes_of_hex h in
     xres ~abs:"POISON -1 NULL" i (attr_type_and_value_from_der i) (fun (((id, t), v), r) -> ([zs id; zs t; hx v], r))
   | "xrdnD", [h] -> let i = bytes_of_hex h in
@@ -227,8 +226,138 @@ let handle_sm9 op args =
       | _ -> "ERR")
    | _ -> "ERR bad-op")
 
+(* ---- CRL / certification request layer (coq/Codec/Crl.v): "OK f1 f2 ... [<consumed>]" | "ABSENT f1 ..." | "ERR" | "FAULT".
+   To be placed after the X.509 fragment of props/C14/driver.ml (uses zs zi nn hx soi llen f_ptr f_nodes f_time xres),
+   with `| op :: args when List.mem op crl_ops -> handle_crl op args` in [handle].  Hints: P=<65 octets>:<0|1>,...
+   In-values of rentryextexD: a number / hex, NULL, or P (the harness's poison: 0x5a5a5a5a resp. an unset pointer). *)
+let crl_ops = ["rreasonD";"rentryextidD";"rentrycrit";"rentryextD";"rentryextexD";"rentryextsget";"rentryextsD";"rentryextschk";
+  "rrevokedD";"rrevokedexD";"rfindserial";"rcrlextidexD";"rcrlextidD";"ridpD";"rcrlextcrit";"rcrlextD";"rcrlextschk";
+  "rtbscrlD";"rcrlexD";"rcrldet";"rcrlchk";"rcrlissuer";"rcrlrevoked";"rcrlfind";"rcrlD";"qreqinfoD";"qreqdet";"qreqD"]
+let handle_crl op args =
+  let hints pre = List.concat (List.map (fun a ->
+      if String.length a > 2 && String.sub a 0 2 = pre then
+        List.map (fun kv -> match split_on ':' kv with [k; v] -> (k, v) | _ -> failwith "hint") (split_on ',' (String.sub a 2 (String.length a - 2)))
+      else []) args) in
+  let hP = hints "P=" in
+  let pt_ok o = (match List.assoc_opt (hx o) hP with Some v -> v = "1" | None -> failwith ("NOHINT-pt " ^ hx o)) in
+  let args = List.filter (fun a -> not (String.length a > 2 && a.[1] = '=')) args in
+  let poison = 0x5a5a5a5a in
+  let zin s = if s = "P" then z_of_int poison else zi s in
+  let zsp z = if int_of_z z = poison then "POISON" else zs z in
+  let pin s = if s = "NULL" then PNull else if s = "P" then PUnset else PBuf (bytes_of_hex s) in
+  let unit_res r = (match r with Ok _ -> "OK" | Absent -> "ABSENT" | Err -> "ERR" | Fault -> "FAULT") in
+  let found r = (match r with
+     | Ok (Some (d, e)) -> "OK " ^ f_time d ^ " " ^ f_ptr e | Ok None -> "ABSENT -1 NULL" | Absent -> "ABSENT" | Err -> "ERR" | Fault -> "FAULT") in
+  let crl_f (t : tbs_crl) = [zs t.c_version; zs t.c_sigalg; hx t.c_issuer; f_time t.c_this_update; zs t.c_next_update; f_ptr t.c_revoked; f_ptr t.c_exts] in
+  let p7 = "POISON POISON POISON POISON POISON POISON POISON" in
+  match op, args with
+  | "rreasonD", [h] -> let i = bytes_of_hex h in xres ~abs:"-1" i (crl_reason_from_der i) (fun (v, r) -> ([zs v], r))
+  | "rentryextidD", [h] -> let i = bytes_of_hex h in xres ~abs:"-1" i (crl_entry_ext_id_from_der i) (fun (v, r) -> ([zs v], r))
+  | "rentrycrit", [o; c] -> if crl_entry_ext_critical_check (zi o) (zi c) then "OK" else "ERR"
+  | "rentryextD", [h] -> let i = bytes_of_hex h in
+    xres ~abs:"POISON POISON POISON" i (crl_entry_ext_from_der i) (fun (((id, c), v), r) -> ([zs id; zs c; hx v], r))
+  | "rentryextexD", [r0; d0; c0; h] -> let i = bytes_of_hex h in
+    xres ~abs:"POISON POISON -1 -1 NULL" i (crl_entry_ext_from_der_ex (zin r0) (zin d0) (pin c0) i)
+      (fun (((((id, c), rs), dt), ci), r) -> ([zs id; zs c; zsp rs; zsp dt; f_ptr ci], r))
+  | "rentryextsget", [h] -> let d = bytes_of_hex h in
+    xres ~consumed:false d (crl_entry_exts_get d) (fun ((rs, dt), ci) -> ([zs rs; zs dt; f_ptr ci], []))
+  | "rentryextsD", [h] -> let i = bytes_of_hex h in
+    xres ~abs:"POISON POISON POISON" i (crl_entry_exts_from_der i) (fun (((rs, dt), ci), r) -> ([zs rs; zs dt; f_ptr ci], r))
+  | "rentryextschk", [h] -> unit_res (crl_entry_exts_check (bytes_of_hex h))
+  | "rrevokedD", [h] -> let i = bytes_of_hex h in
+    xres ~abs:"POISON POISON POISON" i (revoked_cert_from_der i) (fun (((sn, d), e), r) -> ([hx sn; f_time d; f_ptr e], r))
+  | "rrevokedexD", [h] -> let i = bytes_of_hex h in
+    xres ~abs:"POISON POISON POISON POISON POISON" i (revoked_cert_from_der_ex i)
+      (fun (((((sn, d), rs), dt), ci), r) -> ([hx sn; f_time d; zs rs; zs dt; f_ptr ci], r))
+  | "rfindserial", [s; h] -> found (revoked_certs_find_by_serial (bytes_of_hex h) (bytes_of_hex s))
+  | "rcrlextidexD", [h] -> let i = bytes_of_hex h in xres ~abs:"0 ." i (crl_ext_id_from_der_ex i) (fun ((id, ns), r) -> ([zs id; f_nodes ns], r))
+  | "rcrlextidD", [h] -> let i = bytes_of_hex h in xres ~abs:"0" i (crl_ext_id_from_der i) (fun (id, r) -> ([zs id], r))
+  | "ridpD", [h] -> let i = bytes_of_hex h in
+    xres ~abs:p7 i (issuing_distribution_point_from_der i)
+      (fun (((((((c, dp), a), b), rs), d), e), r) -> ([zs c; hx dp; zs a; zs b; zs rs; zs d; zs e], r))
+  | "rcrlextcrit", [o; c] -> unit_res (crl_ext_critical_check (zi o) (zi c))
+  | "rcrlextD", [h] -> let i = bytes_of_hex h in
+    xres ~abs:"POISON POISON POISON POISON" i (crl_ext_from_der_ex i) (fun ((((id, ns), c), v), r) -> ([zs id; f_nodes ns; zs c; hx v], r))
+  | "rcrlextschk", [h] -> unit_res (crl_exts_check (bytes_of_hex h))
+  | "rtbscrlD", [h] -> let i = bytes_of_hex h in xres ~abs:p7 i (tbs_crl_from_der i) (fun (t, r) -> (crl_f t, r))
+  | "rcrlexD", [h] -> let i = bytes_of_hex h in
+    xres ~abs:(p7 ^ " -1 NULL") i (crl_from_der_ex i) (fun (((t, a), sg), r) -> (crl_f t @ [zs a; hx sg], r))
+  | "rcrldet", [h] -> let a = bytes_of_hex h in
+    xres ~consumed:false a (crl_get_details a) (fun ((t, alg), sg) -> (crl_f t @ [zs alg; hx sg], []))
+  | "rcrlchk", [now; h] -> unit_res (crl_check (bytes_of_hex h) (zi now))
+  | "rcrlissuer", [h] -> let a = bytes_of_hex h in xres ~consumed:false a (crl_get_issuer a) (fun is -> ([hx is], []))
+  | "rcrlrevoked", [h] -> let a = bytes_of_hex h in xres ~consumed:false a (crl_get_revoked_certs a) (fun p -> ([f_ptr p], []))
+  | "rcrlfind", [s; h] -> found (crl_find_revoked_cert_by_serial_number (bytes_of_hex h) (bytes_of_hex s))
+  | "rcrlD", [h] -> let i = bytes_of_hex h in xres i (crl_from_der i) (fun (a, r) -> ([hx a], r))
+  | "qreqinfoD", [h] -> let i = bytes_of_hex h in
+    xres i (request_info_from_der pt_ok i) (fun ((((v, su), xy), at), r) -> ([zs v; hx su; hx xy; f_ptr at], r))
+  | "qreqdet", [h] -> let a = bytes_of_hex h in
+    xres ~consumed:false a (req_get_details pt_ok a) (fun (((((v, su), xy), at), alg), sg) -> ([zs v; hx su; hx xy; f_ptr at; zs alg; hx sg], []))
+  | "qreqD", [h] -> let i = bytes_of_hex h in xres i (req_from_der pt_ok i) (fun (a, r) -> ([hx a], r))
+  | _ -> "MODEL-BADOP " ^ op
+
+(* ---- CMS layer (coq/Codec/Cms.v, plain decoders and encoders): "OK f1 f2 ... <consumed>" | "ABSENT f1 ..." | "ERR" | "FAULT".
+   FRAGMENT for props/C14/driver.ml, to be placed after the X.509 fragment (uses zs zi nn hx soi llen f_ptr f_ints xres xenc),
+   with `| op :: args when List.mem op cms_ops -> handle_cms op args` in [handle].  Hints: P=<65 octets>:<0|1>,... (ckaiD).
+   Alternatives for the text of the pinned tree, printed only when they differ from the repaired form:
+     ~digest_ret=    x509_digest_algor_from_der returning the status of the OID lookup        (fixed = false)
+     ~cms_dalg_cap=  cms_digest_algors_from_der testing "cnt > max" (FAULT = a store beyond the array)   (fxcap = false)
+     ~encdata_enc=   cms_encrypted_data_to_der whose second pass writes no EncryptedContentInfo       (fixed = false) *)
+let cms_ops = ["cxencalgD";"cctypeD";"ccinfoD";"cdataD";"cenciD";"cencdD";"cenciE";"cencdE";"ciasnD";"csinfoD";"csinfosD";"crinfosD";
+  "cdalgsD";"csdataD";"crinfoD";"cenvD";"csenvD";"ckaiD"]
+let handle_cms op args =
+  let hints pre = List.concat (List.map (fun a ->
+      if String.length a > 2 && String.sub a 0 2 = pre then
+        List.map (fun kv -> match split_on ':' kv with [k; v] -> (k, v) | _ -> failwith "hint") (split_on ',' (String.sub a 2 (String.length a - 2)))
+      else []) args) in
+  let hP = hints "P=" in
+  let pt_ok o = (match List.assoc_opt (hx o) hP with Some v -> v = "1" | None -> failwith ("NOHINT-pt " ^ hx o)) in
+  let args = List.filter (fun a -> not (String.length a > 2 && a.[1] = '=')) args in
+  let alts base l = base ^ String.concat "" (List.filter_map (fun (nm, v) -> if v = base then None else Some (" ~" ^ nm ^ "=" ^ v)) l) in
+  let oh s = if s = "NULL" then None else Some (bytes_of_hex s) in
+  let b = bytes_of_hex in
+  match op, args with
+  | "cxencalgD", [h] -> let i = b h in xres ~abs:"0 NULL" i (x509_enc_algor_from_der i) (fun ((id, iv), r) -> ([zs id; hx iv], r))
+  | "cctypeD", [h] -> let i = b h in xres ~abs:"-1" i (cms_content_type_from_der i) (fun (id, r) -> ([zs id], r))
+  | "ccinfoD", [h] -> let i = b h in xres i (cms_content_info_from_der i) (fun ((ct, c), r) -> ([zs ct; f_ptr c], r))
+  | "cdataD", [h] -> let i = b h in xres ~abs:"NULL" i (cms_data_from_der i) (fun (d, r) -> ([hx d], r))
+  | "cenciD", [h] -> let i = b h in
+    xres i (cms_enced_content_info_from_der i) (fun ((((((ct, alg), iv), ec), s1), s2), r) -> ([zs ct; zs alg; hx iv; f_ptr ec; f_ptr s1; f_ptr s2], r))
+  | "cencdD", [h] -> let i = b h in
+    xres i (cms_encrypted_data_from_der i) (fun (((((((v, ct), alg), iv), ec), s1), s2), r) -> ([zs v; zs ct; zs alg; hx iv; f_ptr ec; f_ptr s1; f_ptr s2], r))
+  | "cenciE", [ct; alg; iv; ec; s1; s2] -> xenc (cms_enced_content_info_to_der (zi ct) (zi alg) (b iv) (oh ec) (oh s1) (oh s2))
+  | "cencdE", [v; ct; alg; iv; ec; s1; s2] ->
+    let f fx = xenc (cms_encrypted_data_to_der fx (zi v) (zi ct) (zi alg) (b iv) (oh ec) (oh s1) (oh s2)) in
+    alts (f true) [("encdata_enc", f false)]
+  | "ciasnD", [h] -> let i = b h in xres i (cms_issuer_and_serial_number_from_der i) (fun ((is, sn), r) -> ([hx is; hx sn], r))
+  | "csinfoD", [h] -> let i = b h in
+    let f fx = xres i (cms_signer_info_from_der fx i) (fun ((((((((v, is), sn), dg), aa), sa), ed), ua), r) ->
+        ([zs v; hx is; hx sn; zs dg; f_ptr aa; zs sa; hx ed; f_ptr ua], r)) in
+    alts (f true) [("digest_ret", f false)]
+  | ("csinfosD" | "crinfosD"), [h] -> let i = b h in
+    xres ~abs:"NULL" i ((if op = "csinfosD" then cms_signer_infos_from_der else cms_recipient_infos_from_der) i) (fun (d, r) -> ([hx d], r))
+  | "cdalgsD", [mx; h] -> let i = b h and mx = nn mx in
+    let f fx fc = xres i (cms_digest_algors_from_der fx fc mx mx i) (fun (ids, r) -> ([f_ints ids], r)) in
+    alts (f true true) [("digest_ret", f false true); ("cms_dalg_cap", f true false)]
+  | "csdataD", [mx; h] -> let i = b h and mx = nn mx in
+    let f fx fc = xres i (cms_signed_data_from_der fx fc mx mx i) (fun (((((((v, ids), ct), c), ce), cr), si), r) ->
+        ([zs v; f_ints ids; zs ct; f_ptr c; f_ptr ce; f_ptr cr; hx si], r)) in
+    alts (f true true) [("digest_ret", f false true); ("cms_dalg_cap", f true false)]
+  | "crinfoD", [h] -> let i = b h in
+    xres i (cms_recipient_info_from_der i) (fun ((((((v, is), sn), alg), pa), ek), r) -> ([zs v; hx is; hx sn; zs alg; f_ptr pa; hx ek], r))
+  | "cenvD", [h] -> let i = b h in xres i (cms_enveloped_data_from_der i) (fun (((v, ri), eci), r) -> ([zs v; hx ri; hx eci], r))
+  | "csenvD", [mx; h] -> let i = b h and mx = nn mx in
+    let f fx fc = xres i (cms_signed_and_enveloped_data_from_der fx fc mx mx i) (fun (((((((v, ri), ids), eci), ce), cr), si), r) ->
+        ([zs v; hx ri; f_ints ids; hx eci; f_ptr ce; f_ptr cr; hx si], r)) in
+    alts (f true true) [("digest_ret", f false true); ("cms_dalg_cap", f true false)]
+  | "ckaiD", [h] -> let i = b h in
+    xres i (cms_key_agreement_info_from_der pt_ok i) (fun ((((v, k), ce), id), r) -> ([zs v; hx k.k_priv; hx k.k_pub; hx ce; hx id], r))
+  | _ -> "MODEL-BADOP " ^ op
+
 let handle ws = match ws with
   | op :: args when List.mem op x509_ops -> handle_x509 op args
+  | op :: args when List.mem op cms_ops -> handle_cms op args
+  | op :: args when List.mem op crl_ops -> handle_crl op args
   | op :: args when List.mem op sm9_ops -> handle_sm9 op args
   | ["lenE"; l] ->
     let l = n_of_int (int_of_string l) in
@@ -328,13 +457,17 @@ let handle ws = match ws with
         | Ok o -> "f1:" ^ hx o | Fault -> "FAULT" | _ -> "f-1:-") :: !outs;
     String.concat "/" (List.rev !outs)
   | ["timeS"; utc; t] ->
-    (match time_to_str (utc = "1") (n_of_int (int_of_string t)) with Some s -> "OK " ^ hx s | None -> "ERR")
+    let f fx = (match time_to_str_z fx (utc = "1") (z_of_int (int_of_string t)) with Some s -> "OK " ^ hx s | None -> "ERR") in
+    alt "time_neg" (f true) (f false)
   | ["timeP"; utc; s] ->
     (match time_from_str (utc = "1") (bytes_of_hex s) with
      | Ok t -> "OK " ^ soi (ni t) | Absent -> "ABSENT" | Err -> "ERR" | Fault -> "FAULT")
-  | ["timeE"; utc; tag; t] ->
+  | ["timeE"; utc; tag; t] when int_of_string t >= -1 ->
     let t = if t = "-1" then None else Some (n_of_int (int_of_string t)) in
     pr_enc (time_to_der (utc = "1") (n_of_int (int_of_string tag)) t) (time_size (utc = "1") t)
+  | ["timeE"; utc; tag; t] ->
+    let f fx = xenc (time_to_der_z fx (utc = "1") (n_of_int (int_of_string tag)) (z_of_int (int_of_string t))) in
+    alt "time_neg" (f true) (f false)
   | ["timeD"; utc; tag; h] -> let i = bytes_of_hex h in
     pr_dec ~abs:"t=-1" i (time_from_der (utc = "1") (n_of_int (int_of_string tag)) i) (fun (t, r) -> (soi (ni t), r))
 
